@@ -1,6 +1,6 @@
 (* Property C16 — mesh equality is sound, total and independent of the representation (explicit part). *)
 From Coq Require Import QArith Qabs Qminmax Arith Bool List Permutation.
-From FC Require Import Model.Scalar Model.Mesh Model.Structured Model.ImageEq Proofs.ScalarP Proofs.MeshP Findings.F_C16c.
+From FC Require Import Model.Scalar Model.Mesh Model.Structured Model.ImageEq Proofs.ScalarP Proofs.MeshP Proofs.CornerP Findings.F_C16c.
 Import ListNotations.
 Local Open Scope nat_scope.
 
@@ -75,3 +75,31 @@ Example C16_nonvacuous :
   (* pixel and quad of A would both pair with B's quad: rejected, so B's extra block cannot be ignored *)
   mesh_equal 0%Q 0%Q A B = false /\ mesh_equal 0%Q 0%Q B A = false /\ mesh_equal 0%Q 0%Q A A = true.
 Proof. vm_compute. repeat split; reflexivity. Qed.
+
+(* ---- what the explicit comparison does NOT look at: the order of the cell blocks and of a cell's corners --------- *)
+(* (Mesh keeps one corner array per cell type, fieldcompare/mesh/_mesh.py: the distinct-types hypothesis is met by every
+   mesh of the implementation; without it the model's mesh is not even equal to itself, last example) *)
+Theorem C16_block_order_irrelevant : forall rel abs A B,
+  (0 <= abs)%Q -> NoDup (cell_types A) -> pts A = pts B -> Permutation (cells A) (cells B) ->
+  mesh_equal rel abs A B = true.
+Proof. exact block_order_irrelevant. Qed.
+Print Assumptions C16_block_order_irrelevant.
+
+Theorem C16_mesh_equal_refl : forall rel abs M,
+  (0 <= abs)%Q -> NoDup (cell_types M) -> mesh_equal rel abs M M = true.
+Proof. exact mesh_equal_refl. Qed.
+Print Assumptions C16_mesh_equal_refl.
+
+Theorem C16_corner_order_irrelevant : forall rel abs (f : list nat -> list nat) M,
+  (0 <= abs)%Q -> NoDup (cell_types M) -> (forall r, Permutation r (f r)) ->
+  mesh_equal rel abs M (map_corners f M) = true.
+Proof. exact corner_order_irrelevant. Qed.
+Print Assumptions C16_corner_order_irrelevant.
+
+Example C16_block_order_nonvacuous :
+  let A := {| pts := [[0#1; 0#1]; [1#1; 0#1]; [1#1; 1#1]; [0#1; 1#1]]%Q; cells := [(5, [[0; 1; 2]; [0; 2; 3]]); (3, [[0; 1]])] |} in
+  let B := {| pts := pts A; cells := [(3, [[0; 1]]); (5, [[0; 1; 2]; [0; 2; 3]])] |} in
+  (A <> B /\ Permutation (cells A) (cells B) /\ mesh_equal (1#1000) (0#1) A B = true) /\
+  mesh_equal (1#1000) (0#1) {| pts := [[0#1]; [1#1]]%Q; cells := [(3, [[0; 1]]); (3, [[1; 0]])] |}
+                            {| pts := [[0#1]; [1#1]]%Q; cells := [(3, [[0; 1]]); (3, [[1; 0]])] |} = false.
+Proof. split; [exact block_order_example|exact mesh_equal_refl_needs_distinct_types]. Qed.
